@@ -204,6 +204,11 @@ func genSites(repo string) (genFile, error) {
 					if id, ok := x.Fun.(*ast.Ident); ok && wantAlloc && (id.Name == "make" || id.Name == "new" || id.Name == "append") {
 						allocs = append(allocs, fmt.Sprintf("%s %s: %s", rel, name, src(fset, x)))
 					}
+				case *ast.UnaryExpr:
+					// `&T{…}`: a struct allocated by a composite literal (F33: decodeSampledHeader builds its record this way)
+					if cl, ok := x.X.(*ast.CompositeLit); ok && wantAlloc && x.Op == token.AND {
+						allocs = append(allocs, fmt.Sprintf("%s %s: &%s{…}", rel, name, src(fset, cl.Type)))
+					}
 				case *ast.IndexExpr:
 					if wantPanic && !commaOk[x] {
 						panics = append(panics, fmt.Sprintf("%s %s: index %s", rel, name, src(fset, x)))
